@@ -1,13 +1,26 @@
 #!/bin/bash
 # Builds /verif/bin/sim (and bin/sim.race when asked) from /verif/sim against /repo's working tree. Offline.
+# VERIF_REPO=<dir> builds against another checkout of onflow/cadence instead (scratch worktrees for seeded changes, snapshots for
+# background runs); the binaries then go to $VERIF_BIN (default: bin.alt/<hash of dir>) so that bin/ always belongs to /repo.
 set -u
 cd "$(dirname "$0")"
 export GOFLAGS=-mod=mod GOPROXY=off
 unset GOTOOLCHAIN GOSUMDB 2>/dev/null || true
-mkdir -p bin
-cp -f /repo/go.sum sim/go.sum 2>/dev/null
-( cd sim && flock /tmp/.verif-build.lock go build -tags verif -o ../bin/sim . ) || exit 1
+REPO="${VERIF_REPO:-/repo}"
+BIN="bin"; MODFLAG=""
+if [ "$REPO" != "/repo" ]; then
+  H=$(echo -n "$REPO" | md5sum | cut -c1-10)
+  BIN="${VERIF_BIN:-bin.alt/$H}"
+  mkdir -p "$BIN"
+  sed "s|=> /repo|=> $REPO|" sim/go.mod > "$BIN/go.mod"; cp -f "$REPO/go.sum" "$BIN/go.sum"
+  MODFLAG="-modfile=$(cd "$BIN" && pwd)/go.mod"
+else
+  cp -f /repo/go.sum sim/go.sum 2>/dev/null
+fi
+mkdir -p "$BIN"
+OUT="$(cd "$BIN" && pwd)"
+( cd sim && flock /tmp/.verif-build.lock go build $MODFLAG -tags verif -o "$OUT/sim" . ) || exit 1
 if [ "${1:-}" = "race" ]; then
-  ( cd sim && flock /tmp/.verif-build.lock go build -race -tags verif -o ../bin/sim.race . ) || exit 1
+  ( cd sim && flock /tmp/.verif-build.lock go build $MODFLAG -race -tags verif -o "$OUT/sim.race" . ) || exit 1
 fi
 exit 0
